@@ -15,7 +15,7 @@ EXPLANATION = ("Harness c19.prog: two instances with a call-counting dynamic val
                "order and instance, repeated reads at one time do not call the generator again, inspection never calls it, leaving "
                "a time context restores the time exactly, push/pop restores cached value and time stamp.")
 STUBS = []
-OUTSIDE = ["statistical quality of the hash", "time types other than int", "times outside [0,3]"]
+OUTSIDE = ["per-instance copies of a generator at times other than the time of the copy (the time function is deep-copied with it)", "statistical quality of the hash", "time types other than int", "times outside [0,3]"]
 ASSUMPTIONS = ["times in [0,3] (values are realised by struct.pack / hashing inside numbergen)"]
 N_OPS = 9
 
@@ -51,6 +51,11 @@ def prog(k: int, o1: int, t1: int, o2: int, t2: int, o3: int, t3: int, o4: int, 
             mk = lambda: numbergen.UniformRandom(name='u', seed=1, time_dependent=True, time_fn=tm)
             ts = lambda: numbergen.TimeSampledFn(period=2, offset=1, time_fn=tm,
                                                  fn=numbergen.UniformRandom(name='w', seed=3, time_dependent=True, time_fn=tm))
+            class PC(param.Parameterized):
+                # class-level default: every instance gets its own copy of the seeded generator
+                cu = param.Number(default=numbergen.UniformRandom(name='cu', seed=7, time_dependent=True, time_fn=tm), instantiate=True)
+            pc1, pc2 = PC(), PC()
+            fresh = numbergen.UniformRandom(name='cu', seed=7, time_dependent=True, time_fn=tm)
             p = P(d=g, u=mk(), z=zf, w=ts())
             p2 = P(d=Gen(), u=mk(), z=zf, w=ts())
         wtable = {}
@@ -84,6 +89,11 @@ def prog(k: int, o1: int, t1: int, o2: int, t2: int, o3: int, t3: int, o4: int, 
                 check('C19.same_time_same_value', obj.u == u, info)
                 wv = obj.w
                 check('C19.read_leaves_time', tm() == now, dict(info, after=tm()))
+                if now == 0:
+                    # per-instance copies of a class-level seeded generator (the copy carries its own copy of the time
+                    # function, so it is only comparable at the time the copy was made)
+                    cv = (pc1 if o == 2 else pc2).cu
+                    check('C19.instance_independent', cv == fresh() and cv == PC.cu, dict(info, copied_generator=True))
                 if now in wtable:
                     check('C19.order_independent' if o == 2 else 'C19.instance_independent', wtable[now] == wv, dict(info, sampled=True))
                 wtable[now] = wv
